@@ -107,7 +107,7 @@ ShapeCount ==
             ProdSeq(ExpShape(q.fn, q.kind, q.dim, n)) = ExpCount(q.fn, q.dim, n)
 TablesCoherent ==
   Live => \A z \in ZMin..ZMax :
-    /\ Abs(PhiMicro(z) + PhiMicro(-z) - Unit) <= 1
+    /\ (z >= -ZMax => Abs(PhiMicro(z) + PhiMicro(-z) - Unit) <= 1)
     /\ LogPhiMicro(z) <= PhiMicro(z) - Unit + 1                      \* log x <= x - 1
     /\ (z < ZMax => LogPhiMicro(z + 1) - LogPhiMicro(z) <= MillsMicro(z) + 2)
     /\ (z > ZMin => MillsMicro(z) - 2 <= LogPhiMicro(z) - LogPhiMicro(z - 1))
